@@ -85,6 +85,11 @@ SvcChange(n, k, v) ==
     /\ Has("events") /\ UNCHANGED open
     /\ Emit([op |-> "event", n |-> n, ev |-> "change", k |-> k, val |-> v], 2, IF v.t = "r" THEN 1 ELSE 0)
 
+(* one change event carrying two keys (a new reference together with a plain / soft / data value and the like) *)
+SvcChange2(n, k, v, k2, v2) ==
+    /\ Has("events") /\ k # k2 /\ UNCHANGED open
+    /\ Emit([op |-> "event", n |-> n, ev |-> "change", k |-> k, val |-> v, more |-> (k2 :> v2)], 2, IF v.t = "r" \/ v2.t = "r" THEN 1 ELSE 0)
+
 SvcAdd(n, a, v) ==
     /\ Has("events") /\ UNCHANGED open
     /\ Emit([op |-> "event", n |-> n, ev |-> "add", a |-> a, val |-> v], 2, IF v.t = "r" THEN 1 ELSE 0)
@@ -164,6 +169,7 @@ NextC(cls) ==
             \/ \E c \in Conns, r \in CallRids, m \in {"call", "auth", "new"} : CliCall(c, r, m, IF m = "new" THEN "" ELSE "a")
       [] cls = "svc" ->
             \/ \E n \in Names, k \in Keys, v \in Vals : SvcChange(n, k, v)
+            \/ \E n \in Names, k \in Keys, v \in Vals, k2 \in Keys, v2 \in Vals : SvcChange2(n, k, v, k2, v2)
             \/ \E n \in Names, a \in 0..2, v \in Vals \ {[t |-> "x", v |-> ""]} : SvcAdd(n, a, v)
             \/ \E n \in Names, a \in 0..2 : SvcRemove(n, a)
             \/ \E n \in Names : SvcCustom(n)
